@@ -29,3 +29,13 @@ Fixpoint le_n (n : nat) (v : Z) : list Z :=
 
 (* field key *)
 Definition key (num wt : Z) : list Z := varint (num * 8 + wt).
+
+(* a well-formed varint: continuation bit on every byte but the last *)
+Fixpoint wfv (bs : list Z) : Prop :=
+  match bs with
+  | [] => False
+  | b :: t => match t with
+              | [] => 0 <= b < 128
+              | _ => 128 <= b < 256 /\ wfv t
+              end
+  end.
